@@ -254,7 +254,7 @@ func checkDet(prop, tier string, seed int64) int {
 		sig, what := prop+":unclassified", "verdict false"
 		if ds := diags[u.tid]; len(ds) > 0 {
 			_, _, clause, _ := diagShape(ds[0])
-			sig = prop + ":" + clause
+			sig = prop + ":" + clause + ":" + scenFeature(u.c)
 			what = ds[0]
 			if strings.HasPrefix(clause, "outcome-differs") {
 				sig += ":" + normErr(errTexts[u.tid])
